@@ -319,6 +319,10 @@ func (e *Env) Check(p Program, variants []Variant) {
 	if len(want.Lines) > 0 {
 		e.AddSample(p.Name + ": " + want.Lines[len(want.Lines)/2])
 	}
+	if !p.NoNative && want.End != "exit0" && !strings.Contains(p.Name, "end") && !strings.Contains(p.Name, "panic") && !strings.Contains(p.Name, "c08") {
+		// not an error in itself (both sides are compared), but an explorer program that stops early covers less than it claims
+		fmt.Fprintf(os.Stderr, "NOTE: reference run of %s ends with %s after %d lines\n", p.Name, want.End, len(want.Lines))
+	}
 	for _, v := range variants {
 		got, bres, script := e.RunJS(dir, p, v)
 		if got.End == "harness" {
